@@ -28,7 +28,9 @@ def main():
     import subprocess
 
     # only checks that are tracked by git (finished and reviewed) are registered; work in progress is not
-    tracked = set(subprocess.run(["git", "-C", HERE, "ls-files", "checks"], capture_output=True, text=True).stdout.split())
+    # registered = finished and reviewed (tools/registered.txt); `vp check` commits work in progress too, so "tracked" is not enough
+    reg = {l.strip() for l in open(os.path.join(HERE, "tools", "registered.txt")) if l.strip() and not l.startswith("#")}
+    tracked = {f"checks/{i}.py" for i in reg}
     checks, na = [], []
     for p in props:
         pid = p["id"]
